@@ -154,7 +154,11 @@ func decreased(before, after portfolio) []string {
 		}
 	}
 	for id, v := range before.PoolIDs {
-		if w, ok := after.PoolIDs[id]; !ok || w != v {
+		// (a stranger may add to the fee of a queued transfer: the entry then carries more, which is no reduction)
+		w, ok := after.PoolIDs[id]
+		vi, _ := sdkmath.NewIntFromString(v)
+		wi, okw := sdkmath.NewIntFromString(w)
+		if !ok || !okw || wi.LT(vi) {
 			out = append(out, fmt.Sprintf("pool entry %d (%s) -> %q", id, v, after.PoolIDs[id]))
 		}
 	}
@@ -260,6 +264,11 @@ func (r *c10Run) methods(parked uint64) []method {
 // judge runs one transaction on a fresh branch and compares the portfolios of everybody
 // except `direct` (the account the precompile sees as its caller).
 func (r *c10Run) judge(label string, sender chain.Key, to common.Address, data []byte, val *big.Int, direct common.Address, prep func(ctx sdk.Context)) (ok bool) {
+	return r.judgeCalls(label, sender, to, func() ([][]byte, []*big.Int) { return [][]byte{data}, []*big.Int{val} }, direct, prep)
+}
+
+// judgeCalls: the same for a sequence of transactions of one sender (ok = the last one succeeded).
+func (r *c10Run) judgeCalls(label string, sender chain.Key, to common.Address, calls func() ([][]byte, []*big.Int), direct common.Address, prep func(ctx sdk.Context)) (ok bool) {
 	c := r.e.C
 	ctx := c.Branch()
 	if prep != nil {
@@ -269,7 +278,18 @@ func (r *c10Run) judge(label string, sender chain.Key, to common.Address, data [
 	for n, a := range r.accounts {
 		before[n] = r.portfolio(ctx, a)
 	}
-	er := c.EthTxOn(ctx, sender, &to, data, val, 3_000_000)
+	var er chain.EvmResult
+	datas, vals := calls() // (built after the preparation, which may create what they name)
+	val := new(big.Int)
+	for i, data := range datas {
+		er = c.EthTxOn(ctx, sender, &to, data, vals[i], 3_000_000)
+		if vals[i] != nil && !er.Failed() {
+			val.Add(val, vals[i])
+		}
+	}
+	if val.Sign() == 0 {
+		val = nil
+	}
 	ok = !er.Failed()
 	r.judged++
 	r.res.Count("third_party_calls_judged", 1)
@@ -329,6 +349,36 @@ func (r *c10Run) thirdParty() {
 			c.EthTxOn(ctx, e.Victim, &e.USDT.ERC20, chain.ERC20Pack("approve", fwd, big.NewInt(0)), nil, 0)
 		}
 		r.judge(m.name+" by contract called by the victim", e.Victim, fwd, evmasm.ForwardData(m.pc, m.data(fwd)), m.val, fwd, prepV)
+	}
+	// two steps: anybody may raise the fee of a queued transfer; having done so the attacker tries to cancel it.
+	// (The transfer is one of the native coin: raising the fee of a many-to-one token always reverts, O4.)
+	{
+		cn := e.B.Name
+		var target [32]byte
+		copy(target[:], cn)
+		var id uint64
+		prep := func(ctx sdk.Context) {
+			known := map[uint64]bool{}
+			e.B.K.IterateUnbatchedTransactions(ctx, "", func(tx *crosschaintypes.OutgoingTransferTx) bool { known[tx.Id] = true; return false })
+			c.EthTxOn(ctx, e.Victim, &pcCross, fix.PackCrosschain("crossChain", common.Address{}, fix.ExtAddr(cn, e.Other.Hex()), big.NewInt(5000), big.NewInt(50), target, ""), big.NewInt(5050), 3_000_000)
+			e.B.K.IterateUnbatchedTransactions(ctx, "", func(tx *crosschaintypes.OutgoingTransferTx) bool {
+				if !known[tx.Id] {
+					id = tx.Id
+				}
+				return false
+			})
+		}
+		calls := func() ([][]byte, []*big.Int) {
+			n := new(big.Int).SetUint64(id)
+			return [][]byte{fix.PackCrosschain("increaseBridgeFee", cn, n, common.Address{}, big.NewInt(3)), fix.PackCrosschain("cancelSendToExternal", cn, n)}, []*big.Int{big.NewInt(3), nil}
+		}
+		r.res.Count("two_step_attacks_judged", 1)
+		if r.judgeCalls("crosschain.increaseBridgeFee+cancelSendToExternal(victim's native-coin transfer) by attacker EOA", e.Caller, pcCross, calls, e.Caller.Hex(), prep) {
+			r.res.Violate("C10/third-party-cancel-after-fee-increase", "after raising the fee of the victim's queued transfer %d the attacker cancelled it", id)
+		}
+		if id == 0 {
+			r.res.Count("two_step_attacks_without_target", 1)
+		}
 	}
 	// 3. share allowances: at most the allowance, reduced by exactly the amount moved
 	st := fix.PrecompileStaking()
